@@ -294,12 +294,14 @@ def h_error_band(cx, descs, model):
         cx.prove_eq(band[k] * band[k], q, 'band^2=g^T C g[%d]' % k)
 
 
-def _sym_matrix(cx, n, stem='c', unit_diag=True):
+def _sym_matrix(cx, n, stem='c', unit_diag=True, zeros=()):
     M = np.empty((n, n), dtype=object if cx.mode == 'sym' else float)
     for i in range(n):
         for j in range(i + 1):
             if i == j and unit_diag:
                 M[i, j] = 1.0
+            elif [i, j] in [list(z) for z in zeros]:
+                M[i, j] = M[j, i] = 0.0          # observables without a common ensemble
             else:
                 v = cx.real('%s%d%d' % (stem, i, j))
                 if cx.mode == 'conc':
@@ -367,13 +369,13 @@ def h_smooth(cx, n, E):
         cx.prove_eq(wp[k] * w[n - 1], wp[n - 1] * w[k], 'ratios of the E largest eigenvalues unchanged[%d]' % k)
 
 
-def h_cholinv(cx, n):
+def h_cholinv(cx, n, zeros=()):
     """invert_corr_cov_cholesky under the LAPACK contracts (cholesky: L lower, L L^T = corr; solve_triangular: L X = B; cond: well-conditioned input assumed):
     the returned X is lower triangular and X^T X is the inverse of the covariance D corr D (D = diag of the errors, B = D^-1):
     (X^T X)(D corr D) = 1.  Ill-conditioned input may be rejected with ValueError (documented)."""
     import pyerrors.obs as O
     lib.sym_env(cx, *MODS)
-    corr = _sym_matrix(cx, n)
+    corr = _sym_matrix(cx, n, zeros=zeros)
     errs = [cx.real('d%d' % i) for i in range(n)]
     for d in errs:
         cx.assume(d > 0, 'errors positive')
@@ -507,7 +509,9 @@ def jobs(tier, seed):
         add('sort_corr', kl=kl, sizes=sizes)
     add('error_band', descs=[S5, S5], model='lin')
     J.append(dict(harness='smooth', params=dict(n=5, E=3), opts=dict(staged_facts=True)))
-    J.append(dict(harness='cholinv', params=dict(n=2), opts=dict(staged_facts=True, abstract_k=10 ** 9)))     # no size-triggered abstraction: eliminated contract symbols must stay visible
+    J.append(dict(harness='cholinv', params=dict(n=2), opts=dict(staged_facts=True, abstract_k=10 ** 9)))
+    # three observables, the middle one on another ensemble (zero correlation with its neighbours, the outer two correlated)
+    J.append(dict(harness='cholinv', params=dict(n=3, zeros=[[1, 0], [2, 1]]), opts=dict(staged_facts=True, abstract_k=10 ** 9, job_timeout=240)))     # no size-triggered abstraction: eliminated contract symbols must stay visible
     add('error_band', descs=[S5, F5], model='exp')
     if tier == 'thorough':
         add('cov', descs=[S5, S5], checks=['bound'])
